@@ -28,7 +28,19 @@ records whose methods are evaluated the same way; generator helpers are evaluate
                  clash agree on orientation), printed maxima = maxima of the lines listed below the heading (the message
                  names the print statement and the expression whose value is printed), report and CSV in the same order,
                  nothing depends on the iteration order of a set; the evaluated call of find_clashes binds every option
-                 parameter to the switch of the same name (positional or keyword); read_metadata receives an open file
+                 parameter to the switch of the same name (positional or keyword); read_metadata receives an open file;
+                 main is also evaluated without any switch given: the reader (a stub that follows the signature of
+                 parser.read_3d_structure - a truthy nucleic_acid_only keeps polynucleotide entities only) receives the
+                 same arguments with and without the switches and none of them, find_clashes receives every residue of
+                 the file's structure it would consider (chain nucleotide, nucleotide ligand, amino acid), and the listing
+                 of one clash list does not depend on the switches (`cli-structure`, `report-clashes`)
+
+Closed world, how conditions are read: BoolOp / not / conditional expressions / bool() are taken apart; a call of a helper
+whose body is evaluated here is transparent (its own conditions, incl. a returned condition, are the atoms); a condition
+must be a function of one feature of the definition, or of a combination of them (the value is the same wherever all
+features agree - `record is not None` after a helper that examined the pair); constant conditions and conditions that
+depend on something else are additional filters; a compound that cannot be taken apart and is neither is not decided
+(exit 2), never a violation; `while` loops over a work list of KD-tree pairs carry the pair on a loop frame.
 """
 from __future__ import annotations
 
@@ -183,6 +195,13 @@ class PairIdx(tuple):
 
 class CallFrame(tuple):
     """arguments of an evaluated helper call (an item of the context stack of the condition trace)"""
+
+
+class LoopFrame:
+    """one iteration of a `while` loop on the context stack; `item` = the KD-tree pair the iteration works on, once it is taken"""
+
+    def __init__(self):
+        self.item: Any = None
 
 
 class IdxS(int):
@@ -669,7 +688,9 @@ class InstS(Stub):
                 raise AttributeError(attr)
             if decos & {"property", "cached_property"}:
                 return self._call(fn, (), {})
-            return lambda *a, **k: self._call(fn, a, k)
+            bound_ = lambda *a, **k: self._call(fn, a, k)
+            bound_._evaluated = True
+            return bound_
         if attr in cls.consts:
             return Folder(cls.repo, cls.module).fold(cls.consts[attr])
         raise AttributeError(attr)
@@ -989,6 +1010,7 @@ class Ev(BlockEval):
             finally:
                 self.ctx.pop()
 
+        call._evaluated = True
         return call
 
     def cond(self, e: ast.AST, folder: Optional[F] = None) -> Any:
@@ -1005,19 +1027,61 @@ class Ev(BlockEval):
                 if isinstance(e.op, ast.Or) and r:
                     return r
             return r
+        if isinstance(e, ast.IfExp):  # `a if c else b` as a condition: c, then the chosen branch
+            return self.cond(e.body, fo) if self.cond(e.test, fo) else self.cond(e.orelse, fo)
+        if isinstance(e, ast.Call) and isinstance(e.func, ast.Name) and e.func.id == "bool" and "bool" not in fo.local and len(e.args) == 1 and not e.keywords:
+            return bool(self.cond(e.args[0], fo))
+        # a call of a helper whose body is evaluated here: the helper's own conditions (incl. a returned condition) are the atoms
+        transparent = isinstance(e, ast.Call) and self._evaluated_callee(e, fo)
+        if transparent:
+            Ev.cond_depth += 1
+            Ev.traced_return = False
         try:
             r = fo.fold(e)
         except NotConst as ex:
             raise Unknown(f"`{ast.unparse(e)[:60]}`: {ex}")
         except PROGRAM_ERRORS as ex:
             raise Raised(f"{type(ex).__name__}({', '.join(map(repr, ex.args))[:40]}) in `{ast.unparse(e)[:60]}`", e)
+        finally:
+            if transparent:
+                Ev.cond_depth -= 1
+        if transparent and Ev.traced_return:
+            return r
         if self.conds is not None and not isinstance(e, ast.Constant) and not (isinstance(e, ast.Name) and e.id in self.stored):
             rec = self.conds.setdefault(id(e), [e, []])
             rec[1].append((self.tag, tuple(self.ctx), bool(r)))
+            last = getattr(self.conds, "last", None)
+            if last is not None:  # the last condition met for an atom of the collection loop (names what dropped it)
+                for item in reversed(self.ctx):
+                    if isinstance(item, (PairIdx, IdxS)):
+                        break
+                    flat_ = list(item) if isinstance(item, tuple) else [item]
+                    at = [x for x in flat_ if isinstance(x, AtomS)]
+                    if at:
+                        last[(self.tag, at[0].k)] = (e, bool(r))
+                        break
         return r
+
+    cond_depth = 0  # > 0 while a helper called as a condition is evaluated: a condition it returns is traced
+    traced_return = False
+
+    def _evaluated_callee(self, e: ast.Call, fo: "F") -> bool:
+        f = e.func
+        try:
+            if isinstance(f, ast.Name):
+                fn = fo.local[f.id] if f.id in fo.local else self.helper(f.id)
+            elif isinstance(f, ast.Attribute) and all(isinstance(n, (ast.Name, ast.Attribute, ast.Load)) for n in ast.walk(f.value)) and not (isinstance(f.value, ast.Name) and f.value.id not in fo.local):
+                fn = getattr(fo.fold(f.value), f.attr, None)
+            else:
+                return False
+        except Exception:
+            return False
+        return bool(getattr(fn, "_evaluated", False))
 
     # ---- statements
     def _assign(self, t: ast.AST, v: Any) -> None:
+        if self.ctx and isinstance(self.ctx[-1], LoopFrame) and self.ctx[-1].item is None and (isinstance(v, PairIdx) or (isinstance(v, tuple) and len(v) == 2 and all(_isidx(x) for x in v) and any(isinstance(x, IdxS) for x in v))):
+            self.ctx[-1].item = v  # the pair an iteration of a `while` loop takes from its work list
         if isinstance(t, ast.Attribute):
             obj = self.fold(t.value)
             if not isinstance(obj, InstS):
@@ -1073,10 +1137,14 @@ class Ev(BlockEval):
                 self._block(st.orelse)
         elif isinstance(st, ast.While):
             n = 0
-            while self.cond(st.test):
+            # `while pending:` / `while k < len(pairs):` only drives the iteration over a local container: not a condition on the data
+            control = not any(isinstance(x, ast.Attribute) or (isinstance(x, ast.Call) and norm(x.func) != "len") or (isinstance(x, ast.Name) and x.id in OPTIONS) for x in ast.walk(st.test))
+            while (self.fold(st.test) if control else self.cond(st.test)):
                 n += 1
-                if n > 10000:
+                if n > 100000:
                     raise Unknown("while loop does not end")
+                frame = LoopFrame()
+                self.ctx.append(frame)
                 try:
                     self._block(st.body)
                 except _Stop as s:
@@ -1085,6 +1153,8 @@ class Ev(BlockEval):
                     if s.kind == "break":
                         break
                     raise
+                finally:
+                    self.ctx.pop()
         elif isinstance(st, (ast.With, ast.AsyncWith)):
             for it in st.items:
                 v = self.fold(it.context_expr)
@@ -1105,6 +1175,13 @@ class Ev(BlockEval):
                     self.env[a.asname or a.name] = getattr(lib[st.module], a.name)
         elif isinstance(st, (ast.Global, ast.Nonlocal)):
             pass
+        elif isinstance(st, ast.Return) and Ev.cond_depth > 0 and st.value is not None and (isinstance(st.value, (ast.BoolOp, ast.Compare, ast.IfExp)) or (isinstance(st.value, ast.UnaryOp) and isinstance(st.value.op, ast.Not)) or (isinstance(st.value, ast.Call) and isinstance(st.value.func, ast.Name) and st.value.func.id == "bool")):
+            v = self.cond(st.value)
+            Ev.traced_return = True
+            raise _Stop("return", v)
+        elif isinstance(st, ast.Return) and Ev.cond_depth > 0 and (st.value is None or isinstance(st.value, ast.Constant) or (isinstance(st.value, ast.Name) and st.value.id in self.stored)):
+            Ev.traced_return = True  # the value is fixed by the path, whose conditions are traced
+            raise _Stop("return", self.fold(st.value) if st.value is not None else None)
         elif isinstance(st, ast.Expr) and isinstance(st.value, (ast.Yield, ast.YieldFrom)):
             # a generator helper is evaluated eagerly: the values it yields are collected in order
             if self.yielded is None:
@@ -1141,6 +1218,7 @@ class Ev(BlockEval):
                 finally:
                     self.ctx.pop()
 
+            call._evaluated = True
             self.env[st.name] = call
         elif isinstance(st, ast.Expr) and isinstance(st.value, ast.Call):
             c = st.value
@@ -1288,6 +1366,14 @@ def optstr(opts) -> str:
     return "options {" + (", ".join(on) if on else "none") + "}"
 
 
+class Trace(dict):
+    """condition trace (id(node) -> [node, records]) plus, per run and atom, the last condition met in the collection loop"""
+
+    def __init__(self):
+        dict.__init__(self)
+        self.last: Dict[Tuple[Any, int], Tuple[ast.AST, bool]] = {}
+
+
 class ClashEval:
     """Everything the evaluation of find_clashes gives: listed pairs per option combination, KD-tree radii, condition trace."""
 
@@ -1298,7 +1384,7 @@ class ClashEval:
             raise Unknown(f"parameters of find_clashes are {params}")
         self.residues_param = params[0]
         self.clusters = build_structure(radii, extra)
-        self.trace: Dict[int, Any] = {}
+        self.trace: Dict[int, Any] = Trace()
         self.points: Dict[Any, List[Any]] = {}  # run tag -> atoms of the KD-tree points, in index order
         self.query_stmts: List[Any] = []  # statements that query the KD-tree
         self.radius: Dict[Tuple, List[float]] = {}
@@ -1411,6 +1497,8 @@ class ClashEval:
         atom = res = arg = None
         pair = self._pair_of(tag, ctx)
         for item in reversed(ctx):
+            if isinstance(item, LoopFrame):
+                continue
             flat_ = list(item) if isinstance(item, tuple) and not isinstance(item, PairIdx) else [item]
             if isinstance(item, CallFrame):
                 # arguments of the evaluated helper the condition is in: a single atom argument is a feature of its own
@@ -1443,6 +1531,7 @@ class ClashEval:
             if typed(a.name) and typed(b.name):
                 f["distance above r_a + r_b + extra"] = c.dist > self.radii[a.name[0]] + self.radii[b.name[0]] + (self.extra if opts["enable_molprobity_mode"] else 0.0)
             f["occupancy sum is 1"] = math.isclose(c.occsum, 1.0)
+            f["the pair is a clash by the definition"] = expected_listed(c, opts, self.radii, self.extra) if a is c.a and b is c.b else False
             f["occupancy of the first atom missing"] = a.occupancy is None
             f["occupancy of the second atom missing"] = b.occupancy is None
         elif atom is not None:
@@ -1458,7 +1547,7 @@ class ClashEval:
         handed out by the KD-tree model (a pair of query_pairs; an index of a ball query with the index of the point it was
         asked for), None outside such a loop."""
         pts = self.points.get(tag) or []
-        items = [x for x in reversed(ctx) if not isinstance(x, CallFrame)]
+        items = [x.item if isinstance(x, LoopFrame) else x for x in reversed(ctx) if not isinstance(x, CallFrame) and not (isinstance(x, LoopFrame) and x.item is None)]
         ij = None
         for n, item in enumerate(items):
             if isinstance(item, PairIdx):
@@ -1523,11 +1612,36 @@ class ClashEval:
                     if all(f[nm] != v for f, v in rows):
                         found, neg = nm, True
                         break
+            if found is None and len(vals) == 2:
+                # not one feature: a combination of them? (the value is the same wherever all features of the definition agree)
+                common = set(rows[0][0])
+                for f, _ in rows:
+                    common &= set(f)
+                common.discard("in pair loop")
+                seen_: Dict[Tuple, bool] = {}
+                joint = True
+                for f, v in rows:
+                    kf = tuple(f[nm] for nm in sorted(common))
+                    if seen_.setdefault(kf, v) != v:
+                        joint = False
+                        break
+                if joint:
+                    found = "a combination of features of the definition"
             if found is None and skipped and len(vals) == 1:
                 continue  # constant on the representatives that are left: undecided here, the deviation itself is reported
             out.append((node, found, neg, in_pair, len(rows), len(vals) == 1))
         out.sort(key=lambda t: (getattr(t[0], "lineno", 0), getattr(t[0], "col_offset", 0)))
         return out
+
+
+def _compound(node: ast.AST) -> bool:
+    """a traced 'atomic' condition that still holds boolean structure of its own (read as a whole, not atom by atom)"""
+    inner = [n for n in ast.walk(node) if n is not node]
+    if any(isinstance(n, (ast.BoolOp, ast.IfExp, ast.Lambda, ast.ListComp, ast.SetComp, ast.DictComp, ast.GeneratorExp, ast.Dict)) for n in inner):
+        return True
+    if sum(1 for n in ast.walk(node) if isinstance(n, ast.Compare)) >= 2:
+        return True
+    return isinstance(node, ast.Subscript)
 
 
 def _K(fi, what: str) -> str:
@@ -1593,8 +1707,16 @@ def check_find_clashes(chk, fi, radii: Dict[str, float], extra: float) -> Option
         opts, c, want = d
         thr = radii.get(c.ta, 0) + radii.get(c.tb, 0) + (extra if opts["enable_molprobity_mode"] else 0.0) if c.ta in radii and c.tb in radii else None
         R = ce.radius.get(tuple(opts[k] for k in OPTIONS)) or []
+        gone = ""
+        if want:
+            tag_ = ("big", tuple(opts[k] for k in OPTIONS))
+            pts_ = ce.points.get(tag_)
+            for atom_ in (c.a, c.b):
+                if pts_ is not None and not any(atom_ is x for x in pts_) and not gone:
+                    last_ = ce.trace.last.get((tag_, atom_.k))
+                    gone = f"; atom {atom_.name} (occupancy {atom_.occupancy}) is never put into the KD-tree" + (f": dropped at line {getattr(last_[0], 'lineno', '?')} where `{norm(last_[0])[:60]}` is {last_[1]}" if last_ else "")
         reach = f"; the KD-tree search radius {R[0]:.2f} A does not reach it" if want and len(set(R)) == 1 and c.dist > R[0] else ""
-        return f"with {optstr(opts)} the pair [{c.describe()}] is {'not listed but is a clash' if want else 'listed but is not a clash'} by the definition" + (f" (threshold {thr:.2f} A{reach})" if thr is not None else "")
+        return f"with {optstr(opts)} the pair [{c.describe()}] is {'not listed but is a clash' if want else 'listed but is not a clash'} by the definition" + (f" (threshold {thr:.2f} A{reach}{gone})" if thr is not None else gone)
 
     slices = []
     for mp in (False, True):
@@ -1621,6 +1743,11 @@ def check_find_clashes(chk, fi, radii: Dict[str, float], extra: float) -> Option
     extra_f = [t for t in conds if t[1] is None and t[3]]
     unread_c = [t for t in conds if t[1] is None and not t[3]]
     for node, _, _, _, n, const in extra_f:
+        if not const and _compound(node):
+            # a compound the trace could not take apart (table look-up, comprehension, lambda ...): not read, so no verdict on it -
+            # the decision table above has compared the listed pairs with the definition on every representative
+            chk.error("option-extra-filter", fi.site(node), f"condition `{norm(node)[:70]}` in the clash loop is a compound expression the closed-world reading cannot take apart into atomic conditions: not decided whether it is an additional filter")
+            continue
         chk.violation("option-extra-filter", fi.site(node), f"condition `{norm(node)[:70]}` in the clash loop is {'constant on all representatives' if const else 'not a function of one feature of the definition (option, same residue, nucleotide, equal names, distance vs threshold, occupancy)'}: an additional filter", _K(fi, f"extra:{norm(node)[:50]}"))
     if not extra_f:
         chk.ok("option-extra-filter", site, f"{sum(1 for t in conds if t[3])} atomic conditions in the clash loop, each a function of one feature of the definition: " + "; ".join(f"`{norm(t[0])[:40]}` = {'not ' if t[2] else ''}{t[1]}" for t in conds if t[3])[:600])
@@ -1636,11 +1763,39 @@ TOK = re.compile(r"«[^»]+»")
 NUM = re.compile(r"(?<![\w.«])-?\d+(?:\.\d+)?(?:[eE][-+]?\d+)?(?![\w.»])")
 
 
+class SwitchS(str):
+    """value of a boolean command-line switch: a token naming the switch; truthy in the run where the switches are given"""
+
+    on = True
+
+    def __bool__(self):
+        return self.on
+
+
+def _has_switch(v, depth=0):
+    """the switch token a value carries (itself, or inside a list / tuple / dict / set), else None"""
+    if isinstance(v, str) and v.startswith("«o") and v.endswith("»"):
+        return v
+    if depth < 3 and isinstance(v, (list, tuple, set, frozenset, SetS)):
+        for x in v:
+            t = _has_switch(x, depth + 1)
+            if t:
+                return t
+    if depth < 3 and isinstance(v, dict):
+        for x in list(v.keys()) + list(v.values()):
+            t = _has_switch(x, depth + 1)
+            if t:
+                return t
+    return None
+
+
 class Capture:
     def __init__(self):
         self.lines: List[str] = []
         self.rows: List[List[Any]] = []
         self.find_args: List[Tuple[tuple, dict]] = []
+        self.reader_args: List[Tuple[tuple, dict]] = []  # calls of read_3d_structure
+        self.structure: List[Any] = []  # the residues of the structure the reader stub returns
         self.sites: List[Tuple[Any, List[Tuple[str, float]]]] = []  # per printed line: (print statement, numbers it formats)
         self.switches: List[Tuple[str, str, str, tuple]] = []  # declared arguments: (command-line name, action, dest, option strings)
         self.namespace: Dict[str, Any] = {}
@@ -1748,8 +1903,10 @@ def representative_clashes():
 
 
 class MainEval:
-    def __init__(self, repo, mn, clashes, csv_path: Optional[str], reverse_sets: bool):
+    def __init__(self, repo, mn, clashes, csv_path: Optional[str], reverse_sets: bool, switches_on: bool = True):
         self.cap = cap = Capture()
+        # the structure of the input file: a nucleotide of a polynucleotide chain, a nucleotide ligand, an amino acid
+        cap.structure = [ResidueS("«cA»", 1, [], True, token="«sA1»"), ResidueS("«cA»", 201, [], True, token="«sA201 nucleotide ligand»", name="2BA"), ResidueS("«cB»", 7, [], False, token="«sB7 amino acid»", name="ALA")]
         SetS.reverse = reverse_sets
         try:
             class Parser(Stub):
@@ -1770,7 +1927,8 @@ class MainEval:
                         action = k.get("action", "store")
                         kind = action if isinstance(action, str) else "other"
                         if kind in ("store_true", "store_false"):
-                            value = f"«o{ident}»"
+                            value = SwitchS(f"«o{ident}»")
+                            value.on = switches_on
                         elif ident == "csv":
                             value = csv_path
                         else:
@@ -1827,6 +1985,18 @@ class MainEval:
                 cap.find_args.append((a, k))
                 return list(clashes)
 
+            def read_3d_structure(*a, **k):
+                """the parser as its signature says: with a truthy `nucleic_acid_only` it keeps the residues of polynucleotide
+                entities only (its own criterion: the nucleotide ligand and the amino acid are gone)"""
+                cap.reader_args.append((a, k))
+                try:
+                    rparams = [p_.arg for p_ in repo.func("parser", "read_3d_structure").node.args.args]
+                except Exception:
+                    rparams = []
+                flag = dict(zip(rparams, a), **k).get("nucleic_acid_only", False)
+                kept = cap.structure[:1] if flag else cap.structure
+                return types.SimpleNamespace(_folder_stub=True, residues=list(kept))
+
             def read_metadata(f, *a, **k):
                 cap.meta_args.append(f)
                 return MetaS()
@@ -1866,7 +2036,7 @@ class MainEval:
             env.update(
                 argparse=ns(_folder_stub=True, ArgumentParser=lambda *a, **k: Parser()),
                 open=fopen,
-                read_3d_structure=lambda *a, **k: ns(_folder_stub=True, residues=["«residues»"]),
+                read_3d_structure=read_3d_structure,
                 find_clashes=find_clashes,
                 read_metadata=read_metadata,
                 print=out,
@@ -1889,6 +2059,65 @@ def _tokens(text: str):
     toks = TOK.findall(text)
     nums = [float(x) for x in NUM.findall(TOK.sub(" ", text))]
     return toks, nums
+
+
+def check_cli_structure(chk, mn, fi, cap: "Capture", cap_off: "Capture") -> None:
+    """Fact-level `cli-structure`: the tool lists what find_clashes gives for the input file under the chosen options, so
+    the structure handed to find_clashes is the whole structure of the file - read the same way whatever the switches
+    are, and handed over with every residue find_clashes would consider (the option filters are applied once, by
+    find_clashes)."""
+    chk.robust |= {"cli-structure"}
+    repo = chk.repo
+    rsite = next((mn.site(n) for n in ast.walk(mn.node) if isinstance(n, ast.Call) and norm(n.func).split(".")[-1] == "read_3d_structure"), mn.where)
+    fsite = next((mn.site(n) for n in ast.walk(mn.node) if isinstance(n, ast.Call) and norm(n.func).split(".")[-1] == "find_clashes"), mn.where)
+    try:
+        rparams = [a.arg for a in repo.func("parser", "read_3d_structure").node.args.args]
+    except Exception:
+        rparams = []
+
+    def bind(call):
+        a, k = call
+        names = rparams + [f"argument {i + 1}" for i in range(len(rparams), len(a))]
+        b = dict(zip(names, a))
+        b.update(k)
+        return b
+
+    plainv = lambda v: ("file", v.name) if isinstance(v, FileS) else v
+    problems: List[str] = []
+    if len(cap.reader_args) != 1 or len(cap_off.reader_args) != 1:
+        chk.error("cli-structure", rsite, f"main reads the structure {len(cap.reader_args)} times on the representative run, not once: not decided which structure find_clashes receives")
+        return
+    on, off = bind(cap.reader_args[0]), bind(cap_off.reader_args[0])
+    for name, v in on.items():
+        t = _has_switch(v)
+        if t:
+            problems.append(f"read_3d_structure receives the value of switch --{t[2:-1].replace('_', '-')} as its parameter `{name}`: the structure handed to find_clashes is already filtered by the parser's own criterion, and find_clashes applies the option a second time by its own (Residue3D.is_nucleotide etc.) - the tool lists only what passes both, not what find_clashes gives for the file")
+    if not problems and {k: plainv(v) for k, v in on.items()} != {k: plainv(v) for k, v in off.items()}:
+        diff = [k for k in on if plainv(on.get(k)) != plainv(off.get(k))] or sorted(set(on) ^ set(off))
+        problems.append(f"the arguments of read_3d_structure depend on the switches (`{diff[0]}` is `{str(on.get(diff[0]))[:30]}` with and `{str(off.get(diff[0]))[:30]}` without them): the structure handed to find_clashes is not the file's structure whatever the options")
+    chk.expect(not problems, "cli-structure", rsite, f"the structure is read the same way with and without the switches ({', '.join(f'{k}={str(plainv(v))[:30]}' for k, v in on.items())}): no option reaches the parser", problems[0] if problems else "", _K(mn, "reader-args"), found={k: str(plainv(v))[:40] for k, v in on.items()})
+    # the residues handed over
+    params = [a.arg for a in fi.node.args.args]
+    msgs: List[str] = []
+    unread = None
+    for label, c, need in (("with all switches given", cap, [r for r in cap.structure if r.is_nucleotide]), ("without any switch", cap_off, list(cap_off.structure))):
+        if len(c.find_args) != 1:
+            return  # reported by cli-arguments
+        a, k = c.find_args[0]
+        got = dict(zip(params, a), **k).get(params[0])
+        if not isinstance(got, (list, tuple)) or any(not any(x is r for r in c.structure) for x in got):
+            unread = f"the first argument of find_clashes ({label}) is `{str(got)[:60]}`, not residues of the structure read from the input file"
+            continue
+        need = [r for r in c.structure if any(r is x for x in need)]
+        missing = [r for r in need if not any(r is x for x in got)]
+        if missing:
+            msgs.append(f"{label} find_clashes does not receive residue {missing[0].token[1:-1]} of the input structure although it would consider it: the residues are filtered before find_clashes applies the options")
+        elif [x for x in got if any(x is r for r in need)] != need or len(got) != len({id(x) for x in got}):
+            msgs.append(f"{label} find_clashes receives the residues of the structure reordered or repeated")
+    if unread and not msgs:
+        chk.error("cli-structure", fsite, unread)
+    else:
+        chk.expect(not msgs, "cli-structure", fsite, "find_clashes receives every residue of the structure read from the input file that it would consider (all three kinds without switches; both nucleotides - chain member and ligand - with them)", msgs[0] if msgs else "", _K(mn, "residues-handed"))
 
 
 def check_cli_binding(chk, mn, fi, cap: "Capture") -> None:
@@ -1925,9 +2154,6 @@ def check_cli_binding(chk, mn, fi, cap: "Capture") -> None:
         chk.error("cli-arguments", site, f"CLI options passed to find_clashes not understood: {unread[0]}")
     else:
         chk.expect(not wrong, "cli-arguments", site, "every option parameter of find_clashes receives the value of the switch of the same name (evaluated call, positional or keyword)", f"CLI options are not passed to find_clashes parameters of the same name: {'; '.join(wrong[:3])}", _K(mn, "cli-args"), expected=expected, found={p_: (f"--{str(bound.get(p_))[2:-1].replace('_', '-')}" if str(bound.get(p_)).startswith("«o") else str(bound.get(p_))[:40]) for p_ in params[1:]})
-    res_ok = bound.get(params[0]) == ["«residues»"]
-    if not res_ok:
-        chk.error("cli-arguments", site, f"the first argument of find_clashes is `{str(bound.get(params[0]))[:60]}`, not the residues of the structure read from the input file")
     # the switches are the options
     sw = {ident: kind for ident, kind, dest, flags in cap.switches if kind in ("store_true", "store_false")}
     false_ = sorted(i for i, kd in sw.items() if kd == "store_false" and i in params)
@@ -1951,6 +2177,7 @@ def check_main(chk, mn, fi=None) -> Optional[str]:
             runs[rev] = MainEval(repo, mn, L, "/out/«csv».csv", rev)
         no_csv = MainEval(repo, mn, L, None, False)
         empty = MainEval(repo, mn, [], "/out/«csv».csv", False)
+        off = MainEval(repo, mn, L, "/out/«csv».csv", False, switches_on=False)
     except Unknown as ex:
         return str(ex)
     except Raised as ex:
@@ -1969,6 +2196,12 @@ def check_main(chk, mn, fi=None) -> Optional[str]:
     chk.robust |= {"report-clashes", "report-grouping", "report-maxima", "report-loops"}
     if fi is not None:
         check_cli_binding(chk, mn, fi, cap)
+        check_cli_structure(chk, mn, fi, cap, off.cap)
+    listed_ = lambda c: ([ln for ln in c.lines if TOK.search(ln)], [r for r in c.rows if any(isinstance(x, str) and TOK.search(x) for x in r)])
+    if listed_(off.cap) != listed_(cap):
+        problems_early = "the report / CSV of the same clash list differs between runs with and without the switches: main itself filters or changes what find_clashes returned"
+    else:
+        problems_early = ""
     # read_metadata(file) reads file.name: it needs the open file, not the path string
     chk.robust |= {"csv-metadata-arg"}
     msite = next((mn.site(n) for n in ast.walk(mn.node) if isinstance(n, ast.Call) and norm(n.func).split(".")[-1] == "read_metadata"), site)
@@ -2032,6 +2265,8 @@ def check_main(chk, mn, fi=None) -> Optional[str]:
     # ---- listed clashes = the clashes -----------------------------------------------------------------------------
     problems: Dict[str, List[str]] = {}
     add = lambda rule, msg: problems.setdefault(rule, []).append(msg)
+    if problems_early:
+        add("report-clashes", problems_early)
     printed = []
     for (ch, rs_list) in tree:
         for (rh, atom_lines) in rs_list:
